@@ -31,7 +31,7 @@ func c04Enabled(base func(x *scn.Exec) []mc.Event) func(x *scn.Exec) []mc.Event 
 		out := base(x)
 		sm := x.SwapOf(x.A)
 		if sm != nil && !sm.IsFinished() && x.Ctx["v6"] == nil {
-			out = append(out, mc.Event{Name: "to_v6", Dev: 1})
+			out = append(out, mc.Event{Name: "to_v6", Dev: 1, NoCrash: true})
 		}
 		return out
 	}
@@ -105,7 +105,14 @@ func oracleC04(x *scn.Exec) []mc.Violation {
 			continue
 		}
 		a := uint64(rec.Data.StartingBlockHeight)
+		// the tip as the node's own backend would report it at this moment (a backend may be behind:
+		// nobody can be asked to know more than its backend says)
 		tip := uint64(o.LbtcTip)
+		if uint64(o.LagA) <= tip {
+			tip -= uint64(o.LagA)
+		} else {
+			tip = 0
+		}
 		if tip < a {
 			out = append(out, mc.Violation{Property: "C04", Key: "payment_below_anchor", Detail: fmt.Sprintf("tip %d anchor %d", tip, a)})
 		}
@@ -160,9 +167,22 @@ func oracleC05(x *scn.Exec) []mc.Violation {
 		}
 		if hpay+delta >= c+1008 {
 			deficit := hpay + delta - (c + 1008) + 1
+			// the start height this swap stored FIRST (ground truth from the store log)
+			s0 := int64(0)
+			for _, q := range x.W.Log[:o.Seq] {
+				if q.Node == scn.IDA && q.Kind == "store" && q.SwapID == id {
+					if r := decodeRecord(q.Payload); r != nil && r.Data != nil && r.Data.StartingBlockHeight != 0 {
+						s0 = int64(r.Data.StartingBlockHeight)
+						break
+					}
+				}
+			}
 			// name the cause: the first relaxation without which the inequality would hold
 			cause := fmt.Sprintf("other:deficit=%d", deficit)
 			switch {
+			case s0 != 0 && s != s0 && hpay-s0 >= 504:
+				// measured from the height stored first the window was over: the start height was moved later
+				cause = "start_height_moved_after_first_store"
 			case inv.CLTV > 503 || inv.CLTV < 0:
 				cause = "invoice_final_cltv_above_503_accepted"
 			case hpay-s >= 504:
@@ -184,7 +204,7 @@ func oracleC05(x *scn.Exec) []mc.Violation {
 func init() {
 	register(&PropSpec{
 		ID: "C04", Level: "model_checking",
-		Rule: "explicit-state BFS of both Liquid taker roles against the scripted maker: the Liquid tip is moved between every pair of steps (1 block, to confirmation, to window end -1 / 0), invoice final CLTV in {28,29,30,31,max+1,negative}, restarts, and (deviation) the persisted record rewritten to protocol 6 in any state followed by recovery; oracle at every claim-payment attempt; plus a grid enumeration of the CLN route builder and the LND request builder for the total-CLTV bound",
+		Rule: "explicit-state BFS of both Liquid taker roles against the scripted maker: the Liquid tip is moved between every pair of steps (1 block, to confirmation, to window end -1 / 0), in the pay-loop families the node's backend may fall behind (its height answers lag 3 or 70 blocks) or fail a height lookup, invoice final CLTV in {28,29,30,31,max+1,negative}, restarts, and (deviation) the persisted record rewritten to protocol 6 in any state followed by recovery; oracle at every claim-payment attempt; plus a grid enumeration of the CLN route builder and the LND request builder for the total-CLTV bound",
 		Families: func(tier string) []Family {
 			fams := advFamilies(tier, advCfg{txVariants: []string{"ok"}, annVariants: []string{"ok", "inv_cltv_max+1", "inv_cltv_neg"}, cltvs: []int64{28, 31}},
 				scn.Flags{Blocks: true, Time: true, Restart: true, MaxTime: 3, MaxBlocks: 4, NoCsvJump: true},
@@ -193,7 +213,8 @@ func init() {
 			// pay-loop families: the first attempt fails (or hangs), so that the node rests in
 			// its paying state while blocks arrive and restarts happen
 			loop := advFamilies(tier, advCfg{txVariants: []string{"ok"}, annVariants: []string{"ok"}},
-				scn.Flags{Blocks: true, Time: true, Restart: true, PayPlan: true, PayKinds: []world.PayOutcome{world.PayFail, world.PayPendingErr}, MaxTime: 3, MaxBlocks: 4, NoCsvJump: true},
+				scn.Flags{Blocks: true, Time: true, Restart: true, PayPlan: true, PayKinds: []world.PayOutcome{world.PayFail, world.PayPendingErr}, MaxTime: 3, MaxBlocks: 4, NoCsvJump: true,
+					Lag: true, Faults: []string{"lbtc.getblockcount"}},
 				mc.Bounds{MaxDepth: 7, MaxDev: 3, Budget: 50 * time.Second, CrashAfterStore: true},
 				mc.Bounds{MaxDepth: 9, MaxDev: 4, Budget: 8 * time.Minute}, bothBack)
 			fams = append(fams, payLoopStart(loop)...)
@@ -243,6 +264,7 @@ func init() {
 			return out
 		},
 		Oracles:      []scn.Oracle{oracleC05},
+		Extra:        c05Watchers,
 		Outcome:      advOutcome,
 		NeedOutcomes: []string{"paid tx=ok ann=ok", "unpaid tx=ok ann=inv_cltv_max+1", "paid tx=ok ann=cltv=502"},
 	})
